@@ -14,6 +14,7 @@ import (
 	"path/filepath"
 	"reflect"
 	"sort"
+	"strconv"
 	"strings"
 
 	"golang.org/x/tools/go/ssa"
@@ -27,6 +28,14 @@ type cfgConstraints struct {
 	rekorParam   string            // required query parameter of the rekor feeder
 	schemes      map[string]bool   // URL schemes the serverless feeder supports (others panic)
 	urlParsers   map[string]bool   // feeder packages that url.Parse the URL at start
+	intParams    []intParamCheck   // start-up refusals on a numeric parse of a URL query parameter
+}
+
+// intParamCheck: FeedLog of feeder `enum` refuses to start unless strconv.<fn>(query parameter `param`) succeeds.
+type intParamCheck struct {
+	enum, param, fn string
+	base, bits      int
+	pos             string
 }
 
 func embedTargets(dir string) (map[string]string, error) {
@@ -135,6 +144,47 @@ func extractConstraints(w *World, r *Run, rule string) (*cfgConstraints, bool) {
 					if k, v, _ := eqConstFact(s, g.Res, "\"\""); k && v && len(s.Rets) == 1 && neverNil(s.Rets[0]) {
 						c.rekorParam = unquote(p)
 					}
+				}
+			}
+		}
+	}
+	// every feeder: start-up refusals that depend on parsing a query parameter of the configured URL as an integer
+	enumOf := feedFuncEnums(w)
+	for _, fp := range feederPkgs {
+		name := modPath + "/internal/feeder/" + fp + ".FeedLog"
+		if w.fn(name) == nil {
+			continue
+		}
+		sums, _, ok := exploreOpaque(w, r, rule, name, 4, 1, fnRun, fnFeedOnce)
+		if !ok {
+			continue
+		}
+		seen := map[string]bool{}
+		for _, s := range sums {
+			if len(calls(s, fnRun)) > 0 || len(s.Rets) != 1 || !neverNil(s.Rets[0]) {
+				continue
+			}
+			for _, pc := range calls(s, "strconv.Atoi", "strconv.ParseInt", "strconv.ParseUint") {
+				if !failed(s, pc) || len(pc.Args) == 0 {
+					continue
+				}
+				arg := pc.Args[0]
+				if !(arg.Kind == "call" && arg.Name == "(net/url.Values).Get" && len(arg.Args) == 3 && arg.Args[2].Kind == "const") {
+					continue
+				}
+				ic := intParamCheck{enum: enumOf[name], param: unquote(arg.Args[2].Name), fn: pc.Callee[strings.LastIndex(pc.Callee, ".")+1:], base: 10, bits: 0, pos: w.pos(pc.Pos)}
+				if len(pc.Args) == 3 {
+					if b, ok := constInt(pc.Args[1]); ok {
+						fmt.Sscan(b, &ic.base)
+					}
+					if b, ok := constInt(pc.Args[2]); ok {
+						fmt.Sscan(b, &ic.bits)
+					}
+				}
+				k := fmt.Sprint(ic)
+				if !seen[k] {
+					seen[k] = true
+					c.intParams = append(c.intParams, ic)
 				}
 			}
 		}
@@ -290,6 +340,30 @@ func ruleShippedConfig(w *World, r *Run, rule string) {
 			case (pu.Scheme == "http" || pu.Scheme == "https") && pu.Host == "":
 				problem = "URL has no host"
 			}
+			if problem == "" && err == nil {
+				for _, ic := range c.intParams {
+					if ic.enum != enum {
+						continue
+					}
+					v := pu.Query().Get(ic.param)
+					for _, word := range []int{32, 64} {
+						bits := ic.bits
+						if bits == 0 {
+							bits = word // strconv.Atoi and bitSize 0 mean the platform's int
+						}
+						var perr error
+						if ic.fn == "ParseUint" {
+							_, perr = strconv.ParseUint(v, ic.base, bits)
+						} else {
+							_, perr = strconv.ParseInt(v, ic.base, bits)
+						}
+						if perr != nil {
+							problem = fmt.Sprintf("the %s feeder refuses to start unless strconv.%s(%s=%q) succeeds (%s); on a %d-bit build it fails: %v", fname, ic.fn, ic.param, v, ic.pos, word, perr)
+							break
+						}
+					}
+				}
+			}
 			if problem != "" {
 				r.Fail(rule, ek+" | URL usable by its feeder", pos, problem)
 			} else {
@@ -314,4 +388,44 @@ func ruleShippedConfig(w *World, r *Run, rule string) {
 			}
 		}
 	}
+}
+
+
+// feedFuncEnums maps each FeedLog entry point to the name of the Feeder constant that FeedFunc resolves to it.
+func feedFuncEnums(w *World) map[string]string {
+	out := map[string]string{}
+	ft := w.lookup(pOmni, "Feeder")
+	fn := w.fn(fnFeedFunc)
+	if ft == nil || fn == nil {
+		return out
+	}
+	consts := map[string]string{}
+	scope := w.pkg(pOmni).Types.Scope()
+	for _, n := range scope.Names() {
+		if c, ok := scope.Lookup(n).(*types.Const); ok && types.Identical(c.Type(), ft.Type()) {
+			consts[c.Val().ExactString()] = n
+		}
+	}
+	fp := recvParam(fn)
+	e := w.engine(4, 1)
+	for _, s := range e.Explore(fn) {
+		if s.Panic || len(s.Rets) != 1 {
+			continue
+		}
+		ret := s.Rets[0]
+		for v, n := range consts {
+			if k, val, _ := eqConstFact(s, fp, v); k && val && ret.Kind == "func" {
+				out[strings.TrimSuffix(ret.Name, "")] = n
+			}
+		}
+		if ret.Kind == "lookup" && ret.Args[0].Kind == "maplit" {
+			m := ret.Args[0]
+			for i := 0; i+1 < len(m.Args); i += 2 {
+				if m.Args[i].Kind == "const" && m.Args[i+1].Kind == "func" {
+					out[m.Args[i+1].Name] = consts[m.Args[i].Name]
+				}
+			}
+		}
+	}
+	return out
 }
